@@ -51,6 +51,10 @@ type Scenario struct {
 	// Neighbour (datagram): another connection of the process (its own link, NSTART 1) has a confirmable
 	// request outstanding that its peer never acknowledges - which is nothing to this connection
 	Neighbour bool `json:"neighbour,omitempty"`
+	// LeakProbe (with Queued == ""): before the operation, with a total limit of 1, a request to another
+	// path holds the limit while a request to the operation's path times out waiting for it; then the
+	// holder is cancelled. The limiter is idle again - the operation meets the connection as if nothing had happened
+	LeakProbe bool `json:"leakProbe,omitempty"`
 }
 
 type conn interface {
@@ -80,7 +84,7 @@ func Exec(t *testing.T, sc Scenario, r *evid.Run) *evid.Failure {
 		stopRole := func() {}
 		defer func() { stopRole() }() // (the scenario function has early returns)
 		limit, nstart := int64(16), uint32(16)
-		if sc.Queued == "limiter" {
+		if sc.Queued == "limiter" || sc.LeakProbe {
 			limit = 1
 		}
 		if sc.Queued == "nstart" {
@@ -149,6 +153,25 @@ func Exec(t *testing.T, sc Scenario, r *evid.Run) *evid.Failure {
 		bubble.Wait()
 		_ = w.FromLib()
 		nextMID := 54000
+		if sc.LeakProbe && sc.Queued == "" {
+			hctx, hcancel := context.WithCancel(context.Background())
+			hdone := make(chan struct{})
+			get := func(ctx context.Context, path string) {
+				if req, err := cc.NewGetRequest(ctx, path); err == nil {
+					_, _ = cc.Do(req)
+				}
+			}
+			go func() { defer close(hdone); get(hctx, "/y") }()
+			bubble.Wait()
+			_ = w.FromLib()
+			vctx, vcancel := context.WithTimeout(context.Background(), 200*time.Millisecond)
+			get(vctx, "/x") // times out behind the holder
+			vcancel()
+			hcancel()
+			<-hdone
+			bubble.Wait()
+			_ = w.FromLib()
+		}
 		// ---- a request that occupies the limiter / NSTART slot
 		var blockerDone chan struct{}
 		if sc.Queued != "" {
@@ -507,6 +530,7 @@ func gen(t *rapid.T) Scenario {
 		sc.Role = "server"
 	}
 	sc.Neighbour = sc.Transport == "udp" && rapid.IntRange(0, 2).Draw(t, "neighbour") == 0
+	sc.LeakProbe = sc.Queued == "" && rapid.IntRange(0, 3).Draw(t, "leakprobe") == 0
 	peers := []string{"silent", "silent", "ack", "garbage", "blocks"}
 	if sc.Transport == "tcp" {
 		peers = append(peers, "stall", "close")
